@@ -254,8 +254,15 @@ def run_history(c):
             if pending_repair and w.connect_failures > 0:
                 f = None          # the request will not reach the device at all
             else:
-                w.faults[w.nex + extra + idx] = f["kind"]
+                fault_at = w.nex + extra + idx
+                w.faults[fault_at] = f["kind"]
         rep, exc, ev, out = serve(h, w, key)
+        if f is not None and w.nex <= fault_at:
+            # the request made fewer exchanges than planned (answered from what an earlier one
+            # left behind): the link never failed, the request counts as un-faulted
+            w.faults.pop(fault_at, None)
+            f = None
+            labels.append("fault-not-reached")
         evs = events(ev)
         if exc is not None:
             raise Violation("history-shutdown", "%s raised %s: %s" % (where, type(exc).__name__,
